@@ -1,5 +1,6 @@
 // C09 — sockets deliver data intact (TCP stream, UDP datagrams) despite EINTR / EAGAIN / short transfers.
 #include "common.h"
+#include <map>
 #include "../sim/kernel.h"
 #include "../sim/knet.h"
 #include <string.h>
@@ -24,6 +25,7 @@ struct Conn {
   bool use_send_to = false; PSocketAddress *peer_addr = nullptr;      // stream data pushed through p_socket_send_to (address ignored on a connected socket)
 };
 struct St {
+  std::map<PSocket *, int> tmo;   // timeout (ms) given to a blocking stream socket, 0 = none
   PSocketFamily fam;
   int port = 0; bool server_ready = false, server_failed = false;
   std::vector<Conn> conns;
@@ -41,13 +43,32 @@ int err_native(PError *e) { return e ? p_error_get_native_code(e) : 0; }
 void drop(PError **e) { if (*e) { p_error_free(*e); *e = nullptr; } }
 
 // an error surfaced by a BLOCKING call must be a real reason, never an internal would-block / interrupted condition
-void check_blocking_error(const char *api, PError *e, bool blocking) {
+void check_blocking_error(const char *api, PError *e, bool blocking, int timeout_ms = 0, uint64_t t0 = 0) {
   int code = err_code(e), nat = err_native(e);
   // (a timed-out wait carries whatever errno was left over as its native code: only the class counts there)
   if (nat == EINTR && code != P_ERROR_IO_TIMED_OUT) violate("interrupted_error_surfaced", api, "%s reported an interrupted-call error (native EINTR) to the caller", api);
-  if (blocking && (code == P_ERROR_IO_WOULD_BLOCK || nat == EAGAIN || nat == EWOULDBLOCK))
+  if (blocking && (code == P_ERROR_IO_WOULD_BLOCK || ((nat == EAGAIN || nat == EWOULDBLOCK) && code != P_ERROR_IO_TIMED_OUT)))
     violate("would_block_surfaced_in_blocking_mode", api, "%s on a blocking socket reported would-block (code %d native %d)", api, code, nat);
-  if (blocking && code == P_ERROR_IO_TIMED_OUT) violate("timed_out_without_timeout", api, "%s on a blocking socket without timeout reported a time-out", api);
+  if (blocking && code == P_ERROR_IO_TIMED_OUT) {
+    if (timeout_ms <= 0) violate("timed_out_without_timeout", api, "%s on a blocking socket without timeout reported a time-out", api);
+    // with a timeout: a time-out is a real reason only once that much simulated time has passed since the call began
+    else if (now_ns() - t0 < (uint64_t)timeout_ms * 1000000ULL)
+      violate("timed_out_early", api, "%s on a blocking socket with a %d ms timeout reported a time-out after only %llu us", api, timeout_ms, (unsigned long long)((now_ns() - t0) / 1000));
+    else probe("data.timeout_elapsed_for_real");
+  }
+}
+// some blocking stream sockets get a (generous) timeout: retried waits must not eat it up
+int draw_timeout(PSocket *s, bool blocking) {
+  // one socket may serve a sender task and a receiver task at once: the first of them decides, both look the value up per call
+  if (S->tmo.count(s)) return S->tmo[s];
+  S->tmo[s] = 0;
+  if (!blocking || gen(3) != 0) return 0;
+  static const int ts[] = {200, 5000, 60000};
+  int t = ts[gen(3)];
+  p_socket_set_timeout(s, t);
+  probe("data.blocking_with_timeout");
+  S->tmo[s] = t;
+  return t;
 }
 
 void wait_cond(PSocket *s, PSocketIOCondition c) {
@@ -59,6 +80,7 @@ void wait_cond(PSocket *s, PSocketIOCondition c) {
 }
 
 void run_sender(PSocket *s, Conn &c, bool blocking) {
+  draw_timeout(s, blocking);
   if (c.use_send_to && !c.peer_addr) { PError *pe = nullptr; c.peer_addr = p_socket_get_remote_address(s, &pe); drop(&pe); }
   struct AddrGuard { Conn &c; ~AddrGuard() { if (c.peer_addr) { p_socket_address_free(c.peer_addr); c.peer_addr = nullptr; } } } guard_addr{c};
   size_t pos = 0;
@@ -72,6 +94,7 @@ void run_sender(PSocket *s, Conn &c, bool blocking) {
     for (size_t i = 0; i < chunk; i++) b[i] = (char)prf(c.id, pos + i);
     PError *e = nullptr;
     pssize n;
+    uint64_t t0 = now_ns(); int tmo = S->tmo[s];
     if (c.use_send_to && c.peer_addr) n = HX_API("p_socket_send_to", (int)c.id, false, p_socket_send_to(s, c.peer_addr, b, chunk, &e));     // on a connected socket the address is ignored
     else n = HX_API("p_socket_send", (int)c.id, false, p_socket_send(s, b, chunk, &e));
     free(b);
@@ -82,8 +105,9 @@ void run_sender(PSocket *s, Conn &c, bool blocking) {
     } else if (n == 0) {
       violate("send_returned_zero", "p_socket_send", "send of %zu bytes returned 0", chunk);
     } else {
-      check_blocking_error("p_socket_send", e, blocking);
+      check_blocking_error("p_socket_send", e, blocking, tmo, t0);
       int code = err_code(e); drop(&e);
+      if (blocking && tmo && code == P_ERROR_IO_TIMED_OUT) continue;      // the timeout really elapsed: try again
       if (!blocking && code == P_ERROR_IO_WOULD_BLOCK) { probe("data.nonblocking_send_waited"); wait_cond(s, P_SOCKET_IO_CONDITION_POLLOUT); continue; }
       // a genuine error: only legitimate when the peer went away / the connection was reset
       if (!c.receiver_quits_early && !S->faults_reset) violate("send_failed", "p_socket_send", "send failed with code %d although the peer is alive and reading", code);
@@ -95,6 +119,7 @@ void run_sender(PSocket *s, Conn &c, bool blocking) {
 }
 
 void run_receiver(PSocket *s, Conn &c, bool blocking) {
+  draw_timeout(s, blocking);
   size_t guard = 0, guard_max = 4 * c.total + 40000;
   size_t quit_after = c.receiver_quits_early ? gen((uint32_t)c.total + 1) : SIZE_MAX;
   while (guard++ < guard_max) {
@@ -103,6 +128,7 @@ void run_receiver(PSocket *s, Conn &c, bool blocking) {
     char *b = (char *)malloc(blen);
     memset(b, 0x5A, blen);
     PError *e = nullptr;
+    uint64_t t0 = now_ns(); int tmo = S->tmo[s];
     pssize n = HX_API("p_socket_receive", (int)c.id, false, p_socket_receive(s, b, blen, &e));
     if (n > 0) {
       if ((size_t)n > blen) violate("receive_overran_buffer", "p_socket_receive", "receive(%zu) returned %zd", blen, (ssize_t)n);
@@ -116,8 +142,9 @@ void run_receiver(PSocket *s, Conn &c, bool blocking) {
     }
     free(b);
     if (n == 0) { probe("data.eof_seen"); break; }
-    check_blocking_error("p_socket_receive", e, blocking);
+    check_blocking_error("p_socket_receive", e, blocking, tmo, t0);
     int code = err_code(e); drop(&e);
+    if (blocking && tmo && code == P_ERROR_IO_TIMED_OUT) continue;        // the timeout really elapsed: try again
     if (!blocking && code == P_ERROR_IO_WOULD_BLOCK) { probe("data.nonblocking_receive_waited"); wait_cond(s, P_SOCKET_IO_CONDITION_POLLIN); continue; }
     if (!S->faults_reset && !c.aborted) violate("receive_failed", "p_socket_receive", "receive failed with code %d on a healthy connection", code);
     c.aborted = true;
